@@ -445,7 +445,7 @@ func vHostileJSON(tp *verifsim.Tape, raw []byte) []byte {
 // bad one would hide the others).
 func vHostileKnown(tp *verifsim.Tape, m map[string]any) {
 	{
-		known := [][2]string{{"size", "4611686018427387904"}, {"size", "-1"}, {"step", "-5"}, {"bufsize", "-1"}, {"bufsize", "0"}, {"bufsize", "3"}, {"bufsize", "1"},
+		known := [][2]string{{"size", "4611686018427387904"}, {"size", "-1"}, {"step", "-5"}, {"step", "70368744177664"}, {"step", "4611686018427387904"}, {"step", "3000000000"}, {"step", "0"}, {"bufsize", "-1"}, {"bufsize", "0"}, {"bufsize", "3"}, {"bufsize", "1"},
 			{"bufsize", "-4611686018427387904"}, {"path_name", "[]"}, {"escape_chars", `[["a"],5]`}, {"timeout", "-1"}, {"timeout", "9223372036854775807"}, {"protocol", "-1"},
 			{"protocol", "2147483648"}, {"tmux_pane_width", "-1"}, {"tmux_pane_width", "2147483647"}, {"perm", "4294967296"}}
 		for i := 1 + tp.Draw("h.knownn", 2); i > 0; i-- {
@@ -643,7 +643,7 @@ func vScenarioC12(rc *runCtx) {
 						}
 					}
 				}
-			} else if (typ == "CFG" || typ == "ACT" || typ == "NAME") && tp.Bool("c12.known", 400) {
+			} else if (typ == "CFG" || typ == "ACT" || typ == "NAME" || typ == "HASH") && tp.Bool("c12.known", 400) {
 					// a well-formed record in which only known fields carry boundary values
 					if raw, err := vDecode(payload); err == nil {
 						var m map[string]any
